@@ -393,3 +393,37 @@ func init() {
 		})
 	}
 }
+
+// SAOEv binds the exported Rounder.ShouldAddOne to the spec's rounding kernel Inc:
+// every mode x sign x half x last digit x a one-limb, two-limb and heap coefficient.
+type SAOEv struct {
+	K    string `json:"k"` // "sao"
+	Mode string `json:"mode"`
+	Neg  bool   `json:"neg"`
+	Half int    `json:"half"`
+	C    []int  `json:"c"`
+	Ret  bool   `json:"ret"`
+	Key  string `json:"key"`
+}
+
+func init() {
+	drivers["shouldaddone"] = func(g *G) {
+		bases := []string{"", "12345678", "9999999999999999999999", "340282366920938463463374607431768211456123"}
+		for _, m := range append([]string{"", "unknown_mode"}, modeNames...) {
+			for _, neg := range []bool{false, true} {
+				for _, half := range []int{-1, 0, 1} {
+					for _, b := range bases {
+						for dgt := 0; dgt <= 9; dgt++ {
+							v, _ := new(bigIntT).SetString(b+string(rune('0'+dgt)), 10)
+							var z apdBigInt
+							z.SetMathBigInt(v)
+							ret := apdRounder(m).ShouldAddOne(&z, neg, half)
+							g.emit(SAOEv{K: "sao", Mode: m, Neg: neg, Half: half, C: limbsOf(v), Ret: ret,
+								Key: "shouldaddone|" + m + "|" + v.String()}, "shouldaddone")
+						}
+					}
+				}
+			}
+		}
+	}
+}
